@@ -108,12 +108,19 @@ def open_case(ctx: Ctx, case: Case, prop: str, load=True):
         what = (f"specification {case.tag}: real generator {'accepts' if real_ok else 'rejects (' + repr(case.run.error) + ')'}, "
                 f"model {'accepts' if model_ok else 'rejects (' + case.model + ')'}")
         # a valid specification must be accepted (C18 says so); for the property at hand it is a broken tie
-        ctx.violation("model-impl-disagree", what, dict(case.replay_doc(), correspondence="compile vs ProtocolCodeGenerator (acceptance)"),
-                      found_input=False, key=f"accept:{case.tag}")
+        if getattr(ctx, "oracle_only", False):
+            ctx.count("acceptance_disagreements_seen_in_oracle_pass")
+            return None if not real_ok else _load(ctx, case, prop)
+        ctx.deferred.append(("model-impl-disagree", what, dict(case.replay_doc(), correspondence="compile vs ProtocolCodeGenerator (acceptance)"),
+                             f"accept:{case.tag}"))
         return False
     if not real_ok:
         return None
-    if load:
+    return _load(ctx, case, prop) if load else True
+
+
+def _load(ctx: Ctx, case: Case, prop: str):
+    if True:
         try:
             case.run.load()
         except Exception as ex:  # noqa: BLE001
